@@ -340,7 +340,9 @@ def _run_case(case, rec, ctx) -> None:
             ok = (np.abs(rest[:, 0] - m) <= 64 * EPS * gamma ** 2 * m) & (np.abs(rest[:, 1:]).max(axis=1) <= 64 * EPS * gamma ** 2 * m)
             rec.check(bool(ok.all()), "rest_frame", "BoostZMatrix(beta) p != (m,0,0,0)", w, feats)
             ex = _explicit(F["explicit|BoostZMatrix", cse], [beta], n)
-            rec.check(bool((np.abs(ex - Bz).max(axis=(1, 2)) <= 64 * EPS * scale).all()), "explicit_mismatch",
+            # both forms compute gamma = 1/sqrt(1 - beta^2) (relative conditioning gamma^2) in a different operation order: entries of
+            # size gamma may differ by ~eps*gamma^3 (as for BoostMatrix above; 2 reports in 392 k evaluations with gamma^2)
+            rec.check(bool((np.abs(ex - Bz).max(axis=(1, 2)) <= 64 * EPS * gamma ** 3).all()), "explicit_mismatch",
                       "BoostZMatrix code != as_explicit()", w, feats)
         else:  # helicity-frame chain Bz Ry(-theta) Rz(-phi) p = (m,0,0,0)
             rest = np.asarray(F["ArrayMultiplication|chain", cse](p), dtype=float).reshape(n, 4)
